@@ -37,9 +37,83 @@ fn main() {
         }
         return;
     }
-    let strict_err = match prop.as_str() {
-        "c06" => { c06::generate(&mut s, thorough); true }
-        other => { eprintln!("unknown property module {other}"); std::process::exit(2); }
+    // Each module's `generate` returns whether error kinds are compared strictly.
+    let mut strict_err: Option<bool> = None;
+    #[cfg(feature = "c02")]
+    if prop == "c02" {
+        strict_err = Some(c02::generate(&mut s, thorough));
+    }
+    #[cfg(feature = "c03")]
+    if prop == "c03" {
+        strict_err = Some(c03::generate(&mut s, thorough));
+    }
+    #[cfg(feature = "c04")]
+    if prop == "c04" {
+        strict_err = Some(c04::generate(&mut s, thorough));
+    }
+    #[cfg(feature = "c05")]
+    if prop == "c05" {
+        strict_err = Some(c05::generate(&mut s, thorough));
+    }
+    #[cfg(feature = "c06")]
+    if prop == "c06" {
+        strict_err = Some(c06::generate(&mut s, thorough));
+    }
+    #[cfg(feature = "c07")]
+    if prop == "c07" {
+        strict_err = Some(c07::generate(&mut s, thorough));
+    }
+    #[cfg(feature = "c08")]
+    if prop == "c08" {
+        strict_err = Some(c08::generate(&mut s, thorough));
+    }
+    #[cfg(feature = "c09")]
+    if prop == "c09" {
+        strict_err = Some(c09::generate(&mut s, thorough));
+    }
+    #[cfg(feature = "c10")]
+    if prop == "c10" {
+        strict_err = Some(c10::generate(&mut s, thorough));
+    }
+    #[cfg(feature = "c11")]
+    if prop == "c11" {
+        strict_err = Some(c11::generate(&mut s, thorough));
+    }
+    #[cfg(feature = "c13")]
+    if prop == "c13" {
+        strict_err = Some(c13::generate(&mut s, thorough));
+    }
+    #[cfg(feature = "c14")]
+    if prop == "c14" {
+        strict_err = Some(c14::generate(&mut s, thorough));
+    }
+    #[cfg(feature = "c15")]
+    if prop == "c15" {
+        strict_err = Some(c15::generate(&mut s, thorough));
+    }
+    #[cfg(feature = "c16")]
+    if prop == "c16" {
+        strict_err = Some(c16::generate(&mut s, thorough));
+    }
+    #[cfg(feature = "c17")]
+    if prop == "c17" {
+        strict_err = Some(c17::generate(&mut s, thorough));
+    }
+    #[cfg(feature = "c18")]
+    if prop == "c18" {
+        strict_err = Some(c18::generate(&mut s, thorough));
+    }
+    #[cfg(feature = "c19")]
+    if prop == "c19" {
+        strict_err = Some(c19::generate(&mut s, thorough));
+    }
+    #[cfg(feature = "c20")]
+    if prop == "c20" {
+        strict_err = Some(c20::generate(&mut s, thorough));
+    }
+    let Some(strict_err) = strict_err else {
+        eprintln!("unknown or disabled property module {prop}");
+        std::process::exit(2);
     };
     let (d, o) = s.finish(&driver, &out, strict_err);
     println!("cases={} disagreements={} oracle_failures={}", s.cases.len(), d, o);
